@@ -53,6 +53,7 @@ type Term struct {
 	cv    *big.Int // BV const (unsigned repr) or bool const (0/1)
 	name  string   // for var
 	hasFP bool
+	minVar, maxVar int // smallest / largest variable number occurring in the term (0: none)
 }
 
 type TermStore struct {
@@ -85,6 +86,12 @@ func (ts *TermStore) mk(sort Sort, op string, cv *big.Int, name string, args ...
 	for _, a := range args {
 		if a.hasFP {
 			t.hasFP = true
+		}
+		if a.maxVar > t.maxVar {
+			t.maxVar = a.maxVar
+		}
+		if a.minVar != 0 && (t.minVar == 0 || a.minVar < t.minVar) {
+			t.minVar = a.minVar
 		}
 	}
 	ts.terms = append(ts.terms, t)
@@ -124,7 +131,9 @@ func (ts *TermStore) FPConstBits(sort Sort, bits uint64) *Term {
 
 func (ts *TermStore) Var(prefix string, sort Sort) *Term {
 	ts.nvar++
-	return ts.mk(sort, "var", nil, fmt.Sprintf("%s_%d", prefix, ts.nvar))
+	t := ts.mk(sort, "var", nil, fmt.Sprintf("%s_%d", prefix, ts.nvar))
+	t.minVar, t.maxVar = ts.nvar, ts.nvar
+	return t
 }
 
 func signed(w int, u *big.Int) *big.Int {
